@@ -227,8 +227,23 @@ class Gen:
                 self.count(flag)
                 if flag == "no-help-sub":
                     node["help"] = False
+        first_arg = len(items)
         for _ in range(r.choice([0, 1, 1, 2, 3, 4])):
             items.append(self.arg())
+        # conflicts_with between options of the level (zsh writes them as exclusion lists `(-x --exclude)`; the other
+        # generators do not read them): an option conflicting with >= 2 spellings makes the list's ORDER observable
+        # (seeded change seed2/C16-3: collecting the list in a HashSet made generation non-deterministic)
+        if len(items) - first_arg >= 2 and r.random() < self.opt("conflicts", 0.3):
+            ids = [re.match(r"\(arg (x[0-9a-f]*)", x).group(1) for x in items[first_arg:]]
+            # not on a global argument: it is copied into subcommands where its conflict targets do not exist
+            cand = [j for j in range(len(ids)) if "(global)" not in items[first_arg + j]] or [0]
+            k = r.choice(cand)
+            others = [i for j, i in enumerate(ids) if j != k]
+            r.shuffle(others)
+            chosen = others[:r.choice([1, 2, 3])]
+            if "(global)" not in items[first_arg + k]:
+                items[first_arg + k] = items[first_arg + k][:-1] + " (cx %s))" % " ".join(chosen)
+                self.count("args-with-conflicts")
         npos = r.choice([0, 0, 0, 1, 1, 2])
         for i in range(npos):
             items.append(self.arg(positional=True, first_pos=(i == 0), last_pos=(i == npos - 1)))
@@ -1042,6 +1057,149 @@ LEVEL_NOTE = ("Partial: zsh/fish/nushell have no generator model (token oracle o
               "model; known findings (see known_findings.json) are outside the proved class.")
 
 
+# ---- nushell generator model ----
+# Byte-exact Gallina transcription of clap_complete_nushell/src/lib.rs (coq/theories/Complete/NushellModel.v over the
+# built tree of AotTree.v, texts in FishModel.cdesc; specification in pieces and theorems in NushellProofs.v /
+# NushellLexProofs.v).  Two more correspondence streams (area `nushell`, ocaml/nushell_driver.ml): the module the
+# extracted model writes must equal the real generator's module BYTE FOR BYTE (white space included).
+AREAS = AREAS + ["nushell"]
+TRUSTED = TRUSTED + [
+    "nushell generator model: extraction of Complete/NushellModel.v (+ FishModel.cdesc/dbuild for the texts; "
+    "ExtrOcamlBasic only), driver ocaml/nushell_driver.ml (readers of the aot and aottext spec formats); "
+    "char::is_whitespace is modelled by the UTF-8 encodings of the 25 White_Space characters; str::lines().last() by "
+    "split_inclusive + LinesMap as in core 1.95; StyledStr::to_string of texts without ANSI escapes is the text",
+]
+
+NU_NAME_BYTES = ["'", "\\", ",", "$", "#", " ", "\"", "`", "(", ")", ";", "\t", "\u00e9", "%", "~", "*", "=", "\n", "\r", "-",
+                 "_", "\u00a0", "\u2003", "\u3000", "\u0085", "\u200b", "\u1680", "\u2028", "\u205f", "\x0b", "\x0c",
+                 "[", "]", ":", "@", "?", "."]
+
+
+def nushell_names_case(rng):
+    """a small valid tree (depth <= 3 below the root) with adversarial names: quotes, backslashes, white space of
+    every kind in possible values (the `"\\"v\\""` branch), newlines and carriage returns inside and at the end of ids
+    and longs (str::lines().last() decides the padding of the help comment), names longer than the 30-column indent;
+    help / about texts (the `(help x..)` / `(about x..)` items of the aot spec) so that the padding is exercised.
+    Every name carries a serial number (unique), no name starts with '-', shorts are distinct over the tree."""
+    k = [0]
+
+    def fresh(tail=True):
+        k[0] += 1
+        n = rng.choice([1, 2, 3, 3, 8, 26, 31])
+        s = "".join(rng.choice(NU_NAME_BYTES + list("abc")) for _ in range(n))
+        if s.startswith("-"):
+            s = "a" + s
+        s = s + "n%d" % k[0]
+        if tail and rng.random() < 0.15:
+            s += rng.choice(["\r", "\n", "\r\n", "\n\n", " "])
+        return s
+
+    shorts = [c for c in NU_NAME_BYTES if c != "-"] + list("xyz")
+    rng.shuffle(shorts)
+
+    def arg():
+        items = ["arg", hexs(fresh())]
+        kind = rng.choice(["flag", "opt", "optpv", "pos", "pos"])
+        if kind != "pos":
+            r = rng.random()
+            if r < 0.7 and shorts:
+                items.append("(s %s)" % hexs(shorts.pop()))
+                if rng.random() < 0.3 and shorts:
+                    items.append("(vsa %s)" % hexs(shorts.pop()))
+            if r > 0.3 or len(items) == 2:
+                items.append("(l %s)" % hexs(fresh()))
+                if rng.random() < 0.3:
+                    items.append("(vla %s)" % hexs(fresh()))
+                if rng.random() < 0.15:
+                    items.append("(hla %s)" % hexs(fresh()))
+        items.append("(act %s)" % ("flag" if kind == "flag" else rng.choice(["set", "set", "append"])))
+        if kind == "pos" and rng.random() < 0.4:
+            items.append("(required)")
+        if kind != "flag" and rng.random() < 0.4:
+            items.append("(hint %s)" % rng.choice(GEN_HINTS))
+        if kind == "optpv" or (kind == "pos" and rng.random() < 0.5):
+            for _ in range(rng.choice([1, 2, 3])):
+                items.append("(%s %s)" % (rng.choice(["pv", "pv", "hpv"]), hexs(fresh(tail=False))))
+        if rng.random() < 0.75:
+            items.append("(help %s)" % hexs(text()))
+        return "(" + " ".join(items) + ")", kind == "pos"
+
+    def text():
+        return rng.choice(["", "h", "two\nlines", "cr\r\nlf\n", "it's \"q\" `b` $x # [y]", "\n", "tr\u00e9s \u2028 long " * 3])
+
+    def cmd(depth):
+        items = ["cmd", hexs(fresh() if depth else "prog")]
+        if depth and rng.random() < 0.4:
+            items.append("(va %s)" % hexs(fresh()))
+        if rng.random() < 0.6:
+            items.append("(about %s)" % hexs(text()))
+        npos = 0
+        for _ in range(rng.choice([0, 1, 2, 3])):
+            a, is_pos = arg()
+            if is_pos and npos:
+                continue
+            npos += is_pos
+            items.append(a)
+        if depth < 3:
+            for _ in range(rng.choice([0, 1, 2] if depth < 2 else [0, 1])):
+                items.append(cmd(depth + 1))
+        return "(" + " ".join(items) + ")"
+
+    return "(aot nushell %s %s)" % (hexs(rng.choice(["prog", "my-prog", "a b", "q'r", "p\nq", "x\r"])), cmd(0))
+
+
+def _nushell_model_streams(tier, rng):
+    quick = tier == "quick"
+    cases, dist = [], {}
+    plans = [(None, 90 if quick else 1300),
+             ({"alias_without_primary": True}, 12 if quick else 150),     # boundary of C16_nushell_mentions_all_spellings
+             ({"bin": "b in"}, 4 if quick else 40), ({"bin": "é-x"}, 4 if quick else 40)]
+    for prof, n in plans:
+        for _ in range(n):
+            c, st = make_case(rng, "nushell", tier, profile=prof)
+            cases.append(c)
+            merge(dist, st)
+    names = [nushell_names_case(rng) for _ in range(60 if quick else 1200)]
+    return [Stream("nushell-model", cases, oracle=oracle, area="nushell", project=fish_project, nontrivial=nontrivial,
+                   describe=dist),
+            # no oracle: the token search of the mention oracle looks for the raw spelling inside its own quoting
+            Stream("nushell-model-names", names, area="nushell", project=fish_project, nontrivial=nontrivial,
+                   describe={"trees": len(names), "name alphabet": [repr(c) for c in NU_NAME_BYTES]})]
+
+
+_streams_without_nushell_model = streams
+
+
+def streams(tier, rng):
+    return _streams_without_nushell_model(tier, rng) + _nushell_model_streams(tier, rng)
+# what MANIFEST.json says about C16 after the nushell model (the strings above describe the state before it)
+RULE = RULE + ("  Streams nushell-model / nushell-model-names: the same trees (+ aliases without primary, bin names with a space "
+               "/ non-ASCII) and small trees with adversarial names (quotes, brackets, every kind of Unicode white space in "
+               "possible values, LF / CR / CR LF inside and at the end of ids and longs, names longer than the 30-column "
+               "indent) and help / about texts, on which the module of the extracted nushell generator model must equal the "
+               "real module byte for byte.")
+TECHNIQUE = TECHNIQUE.replace("PowerShell/elvish: the script byte for byte)", "fish/PowerShell/elvish/nushell: the script byte for byte)") \
+    .replace("byte-exact models of the PowerShell and elvish generators with coverage and lookup theorems",
+             "byte-exact models of the fish, PowerShell, elvish and nushell generators with coverage theorems")
+LEVEL_TEXT = (LEVEL_TEXT +
+              "  nushell: an executable Gallina TRANSCRIPTION of clap_complete_nushell/src/lib.rs (all of it; the string written "
+              "so far is threaded through every function as in the Rust code, because the padding of a help comment is "
+              "computed from s.lines().last(); every expect / unreachable! visible) is proved to compute a specification in "
+              "pieces whenever every node has a bin name, so no panic site is reachable after build; generate() writes a module "
+              "for EVERY command tree, deterministically; for EVERY path of names or visible aliases, at every depth, the module "
+              "contains the block of the addressed command -- the module consists of EXACTLY one export extern block per command, in "
+              "pre-order, declared under the bin path of the NAMES -- with a line for every short and long spelling the accessors return (class aliases_have_primary: "
+              "every short, long and visible alias), a line for every positional, and the nu-complete definition with every "
+              "possible value (hidden ones included) referenced from the argument's lines.  The two recorded findings "
+              "(option aliases without primary, subcommand aliases) are proved class boundaries with replayed witnesses.  The "
+              "model's module is compared byte for byte with the real generator's on every generated tree on every run.  "
+              "Command::build makes the bin names linked (parent's bin, a blank, the name) for every user tree without bin "
+              "names of its own and a non-empty bin (C16_build_linked), so the declared path of a block is 'bin n1 .. nk'.")
+LEVEL_NOTE = LEVEL_NOTE.replace("Partial: zsh/fish/nushell have no generator model (token oracle only)",
+                                "Partial: zsh has no generator model (token oracle only); fish, PowerShell, elvish and nushell have "
+                                "byte-exact generator models with theorems but are not installed (what the shell does with the script "
+                                "is not modelled); that two commands never share a declared name is not stated (exactly one block per command is)")
+# ---- end nushell generator model ----
 # ---- zsh generator model ----
 # Byte-exact Gallina model of clap_complete/src/aot/shells/zsh.rs (coq/theories/Complete/ZshModel.v over the built tree of
 # AotTree.v and the text decoration of FishModel.v; theorems in ZshProofs.v / ZshLexProofs.v).  Correspondence streams
